@@ -41,6 +41,7 @@ let () =
     | "cmp" -> run_cmp
     | "ctor" -> run_ctor
     | "serde" -> run_serde
+    | "sched" -> run_sched
     | _ -> (prerr_endline ("unknown stream " ^ stream); exit 2) in
   let ic = open_in Sys.argv.(2) in
   (try
